@@ -123,6 +123,20 @@ def r1_classes(chk, prog):
                 vals.add(v)
                 edges.append((b.idx, d, v))
     edges = matches_guard(ctx, edges) or edges
+    if not vals:
+        # `[403, 404, 410].contains(&status.as_u16())`
+        import re as _re
+        for bb, t in ctx.calls("core::slice::<impl [T]>::contains"):
+            needle = ctx.origins.of_operand(t.args[1])
+            if not (needle and all(is_call(o, "http::status::StatusCode::as_u16") for o in needle)):
+                continue
+            for o in deep_origins(ctx, t.args[0], 4):
+                if o.kind == "const" and o.extra is not None:
+                    if o.extra.const_int is not None:
+                        vals.add(o.extra.const_int)
+                    else:
+                        vals |= set(int(x) for x in _re.findall(r"(\d+)_u16", str(o.extra.j.get("v", ""))))
+            edges.extend(ctx.tracker.track(t.dest.local, is_bool=True).pos_edges(0))
     chk.require(vals == {403, 404, 410}, "R1", f, "file-not-found-statuses",
                 "the statuses reported as 'file not found' are %s, expected exactly 403, 404, 410" % sorted(vals))
     p = ctx.cfg.witness_path(fnf, edges)
